@@ -53,9 +53,11 @@ let () =
   (* (project (zod-types.ts of run 1, run 2, ...)) *)
   Registry.register "eval" (fun s ->
     match list s with
-    | [p; texts] -> of_sx (M.c09_eval (project_ p) (list_ str_ texts))
+    | [p; texts] -> of_sx (M.c09_eval (project_ p) (list_ str_ texts) [])
+    | [p; texts; m] -> of_sx (M.c09_eval (project_ p) (list_ str_ texts) (list_ (pair_ str_ str_) m))
     | _ -> failwith "c09-eval: bad case");
   Registry.register "eval-deep" (fun s ->
     match list s with
-    | [p; texts] -> of_sx (M.c09_eval_deep (project_ p) (list_ str_ texts))
+    | [p; texts] -> of_sx (M.c09_eval_deep (project_ p) (list_ str_ texts) [])
+    | [p; texts; m] -> of_sx (M.c09_eval_deep (project_ p) (list_ str_ texts) (list_ (pair_ str_ str_) m))
     | _ -> failwith "c09-eval-deep: bad case")
